@@ -218,6 +218,14 @@ theorem inventory :
     ownedKinds = ["CString", "CUShortSlice"] ∧
     iterFields = ["kbcompat_iter", "cand_iter", "interval_iter", "userphrase_iter"] := by decide
 
+/-- the functions that hand out heap results: ten `CString` getters and the phone sequence (`u16` slice) — each
+registers its result in `OWNED` (the translator rejects an `into_raw` that is not wrapped in `owned_into_raw`) -/
+theorem heap_getters_reviewed :
+    heapGetters = [("chewing_config_get_str", 0), ("chewing_get_KBString", 0), ("chewing_get_phoneSeq", 1),
+      ("chewing_commit_String", 0), ("chewing_buffer_String", 0), ("chewing_bopomofo_String", 0),
+      ("chewing_cand_String", 0), ("chewing_cand_string_by_index", 0), ("chewing_aux_String", 0),
+      ("chewing_kbtype_String", 0), ("chewing_zuin_String", 0)] := by decide
+
 /-- each stored iterator is touched by exactly its enumerate / hasNext / get functions -/
 theorem iter_sites_reviewed :
     iterSites =
